@@ -73,6 +73,50 @@ def strip_attrs(text):
     return text, len(edits)
 
 
+def make_pub(f):
+    c = f.code
+    edits = []
+    # item visibility
+    k = 0
+    if c[0].text == "pub":
+        if c[1].text == "(":
+            edits.append((c[0].pos, c[f.br[1]].end, "pub"))
+            k = f.br[1] + 1
+        else:
+            k = 1
+    else:
+        edits.append((c[0].pos, c[0].pos, "pub "))
+    if c[k].text == "struct":
+        j = k
+        while j < len(c) and c[j].text not in ("{", ";", "("):
+            j += 1
+        if j < len(c) and c[j].text == "{":
+            close = f.br[j]
+            i = j + 1
+            start = True
+            depth = 0
+            while i < close:
+                t = c[i]
+                if start and depth == 0:
+                    if t.text == "pub":
+                        if c[i + 1].text == "(":
+                            edits.append((t.pos, c[f.br[i + 1]].end, "pub"))
+                    else:
+                        edits.append((t.pos, t.pos, "pub "))
+                    start = False
+                if t.text in ("(", "[", "{", "<"):
+                    depth += 1
+                elif t.text in (")", "]", "}", ">"):
+                    depth -= 1
+                elif t.text == ">>":
+                    depth -= 2
+                elif t.text == "," and depth == 0:
+                    start = True
+                i += 1
+    if edits:
+        f.apply(edits, "R9")
+
+
 def extract(region, unit_cfg):
     src = load_source(region.file)
     try:
@@ -92,13 +136,10 @@ def extract(region, unit_cfg):
         if region.kind == "type":
             text2, n = strip_attrs(text)
             f = rules_mod.Frag(text2, "%s:%d" % (region.file, l0))
-            # R9: a restricted visibility on an extracted enum becomes `pub` (Verus generates open accessors for
-            # payload variants; visibility has no meaning inside the single-file unit)
-            c = f.code
-            if len(c) > 4 and c[0].text == "pub" and c[1].text == "(" and c[4].text == "enum":
-                f.apply([(c[0].pos, c[3].end, "pub")], "R9")
-            if n:
-                f.log.append({"rule": "R9", "at": f.origin, "before": "%d attribute(s)" % n, "after": ""})
+            # R9: inside the single-file unit every extracted type and every struct field is `pub` (visibility has no
+            # meaning there; Verus needs it for spec functions that read the fields)
+            make_pub(f)
+            rules_mod.r17_reroot(f)
             if substs:
                 rules_mod.subst(f, substs, "R12")
         else:
